@@ -27,6 +27,7 @@ inductive Expr where
   | log (a : Expr)
   | exp (a : Expr)
   | sqrt (a : Expr)
+  | pow (a b : Expr)             -- `math.pow(a, b)`
 deriving Repr, BEq, DecidableEq
 
 variable {α : Type} [Add α] [Sub α] [Mul α] [Div α] [Neg α] [FromNat α] [Trans α]
@@ -47,6 +48,7 @@ def Expr.eval (env : String → α) : Expr → α
   | .log a => Trans.log (a.eval env)
   | .exp a => Trans.exp (a.eval env)
   | .sqrt a => Trans.sqrt (a.eval env)
+  | .pow a b => Trans.pow (a.eval env) (b.eval env)
 
 /-- what the translator emits for one operator class -/
 structure TuningSpec where
@@ -68,5 +70,12 @@ def TuningSpec.set (t : TuningSpec) (zero : α) (v : α) : α := t.setter.eval (
 def envTune (adaptable acc target count zero : α) : String → α := fun s =>
   if s = "adaptable" then adaptable else if s = "acc" then acc
   else if s = "target" then target else if s = "count" then count else zero
+
+/-- sequential assignments `name = expr` (locals and attributes of a method body) -/
+def evalAssigns (env : String → α) : List (String × Expr) → String → α
+  | [] => env
+  | (x, e) :: rest =>
+    let v := e.eval env
+    evalAssigns (fun s => if s = x then v else env s) rest
 
 end TT.C15
